@@ -72,7 +72,7 @@ class Reporter:
         print('HARNESS-ERROR %s: %s' % (self.pid, what), flush=True)
 
     def write_replay(self, sig, record):
-        d = os.path.join(VERIF, 'replays')
+        d = os.environ.get('ESRSIM_REPLAY_DIR') or os.path.join(VERIF, 'replays')
         os.makedirs(d, exist_ok=True)
         h = hashlib.sha256(sig.encode()).hexdigest()[:10]
         path = os.path.join(d, '%s-%s-%s.json' % (self.pid, record.get('run_seed', 0), h))
@@ -100,7 +100,7 @@ class Reporter:
 
 
 def write_evidence(pid, tier, seed, level, coverage, wall_s, violations, assumptions, extra=None):
-    d = os.path.join(VERIF, 'evidence')
+    d = os.environ.get('ESRSIM_EVIDENCE_DIR') or os.path.join(VERIF, 'evidence')
     os.makedirs(d, exist_ok=True)
     ev = dict(property_id=pid, tier=tier, seed=int(seed), level=level, coverage=coverage,
               assumptions=assumptions, wall_s=round(float(wall_s), 2), violations=int(violations))
